@@ -74,6 +74,9 @@ func init() {
 	registerDomain("proj", []string{"T", "T", idxSort}, idxSort,
 		`(assert (forall ((t T) (o T) (J (Array Int Int)) (k Int)) (! (=> (and (<= 0 k) (< k (rank t))) (= (select (proj t o J) k) (ite (= (dim t k) (dim o (+ k (- (rank o) (rank t))))) (select J (+ k (- (rank o) (rank t)))) 0))) :pattern ((select (proj t o J) k)))))
 (assert (forall ((t T) (o T) (J (Array Int Int))) (! (=> (and (= (rank t) (rank o)) (forall ((k Int)) (=> (and (<= 0 k) (< k (rank t))) (= (dim t k) (dim o k))))) (= (el t (proj t o J)) (el t J))) :pattern ((proj t o J)))))`, "rank", "dim", "el")
+	// val(J, S, k): the row-major (Horner) value of the digits J[0..k) over the sizes S, on top of the overflow digit J[-1]
+	registerDomain("val", []string{idxSort, idxSort, "Int"}, "Int",
+		`(assert (forall ((J (Array Int Int)) (S (Array Int Int)) (k Int)) (! (= (val J S k) (ite (<= k 0) (select J (- 1)) (+ (* (val J S (- k 1)) (select S (- k 1))) (select J (- k 1))))) :pattern ((val J S k)))))`)
 	// projA(t, S, m, J): proj against a target shape given as an array S of rank m (no result tensor yet)
 	registerDomain("projA", []string{"T", idxSort, "Int", idxSort}, idxSort,
 		`(assert (forall ((t T) (S (Array Int Int)) (m Int) (J (Array Int Int)) (k Int)) (! (=> (and (<= 0 k) (< k (rank t))) (= (select (projA t S m J) k) (ite (= (dim t k) (select S (+ k (- m (rank t))))) (select J (+ k (- m (rank t)))) 0))) :pattern ((select (projA t S m J) k)))))`, "rank", "dim")
